@@ -287,6 +287,35 @@ def custom_start(ctx, res, lib, case, out, s1, s2, kw, pen_int):
                 res.violations.append({"clause": "custom start: valid partial path achieving the cell value",
                                        "route": name, "case": case, "start_cell": [I, J], "why": why,
                                        "path_cost": cost, "cell_value": want, "path": path})
+    # partial custom start (only row= or only col=): the omitted coordinate is the last column / last row, as the
+    # docstring says, also on matrices that carry the -1 marks of an end relaxation. Start cells are taken above
+    # (left of) the marked range so that no -1 cell lies between them and the border they walk along.
+    p1b, p1e, p2b, p2e = dc.psi_tuple(case.get("psi"))
+    partial = [("row", I, c) for I in range(1, r - p1e) if matU[I][c] != "inf"] + \
+              [("col", r, J) for J in range(1, c - p2e) if matU[r][J] != "inf"]
+    for (which, I, J) in ctx.rng.sample(partial, min(2, len(partial))):
+        want = matU[I][J] // dc.SCALE
+        for name, fast in (("best_path(%s only) python matrix" % which, False), ("best_path(%s only) C matrix" % which, True)):
+            res.evaluations += 1
+            try:
+                f = dtw.warping_paths_fast if fast else dtw.warping_paths
+                _d, m = f(s1, s2, keep_int_repr=True, psi_neg=True, **kw2)
+                if m[I, J] == -1 or (which == "row" and (m[:I, J] == -1).any()) or (which == "col" and (m[I, :J] == -1).any()):
+                    continue
+                akw = {"row": I} if which == "row" else {"col": J}
+                path = [(int(a), int(b)) for a, b in dtw.best_path(m, penalty=pen_int, **akw)]
+            except BaseException as e:
+                if isinstance(e, (KeyboardInterrupt, SystemExit)):
+                    raise
+                res.violations.append({"clause": "routine raised", "route": name, "case": case, "got": impl.exc_name(e)})
+                continue
+            res.hit("partial_custom_start" + ("_with_psi_marks" if (m == -1).any() else ""))
+            ok, why, cost = check_path(case, path, partial_end=(I - 1, J - 1))
+            if not ok or cost != want:
+                res.violations.append({"clause": "custom start given by row only / column only: the omitted coordinate is "
+                                                 "the last column / row; valid partial path achieving the cell value",
+                                       "route": name, "case": case, "start_cell": [I, J], "why": why,
+                                       "path_cost": cost, "cell_value": want, "path": path})
 
 
 def replay(ctx, rep):
